@@ -149,10 +149,17 @@ def tt_dimscheck(  # noqa: PLR0912
     """
     if dims is not None and exclude_dims is not None:
         raise ValueError("Either specify dims to include or exclude, but not both")
+    # The order as a Python int and the modes as platform integers: np.arange(0, N)
+    # with a numpy unsigned N, and unsigned modes joined with computed ones, are floats
+    N = int(N)
     if dims is not None:
         dims = parse_one_d(dims)
+        if np.issubdtype(dims.dtype, np.integer):
+            dims = dims.astype(np.intp)
     if exclude_dims is not None:
         exclude_dims = parse_one_d(exclude_dims)
+        if np.issubdtype(exclude_dims.dtype, np.integer):
+            exclude_dims = exclude_dims.astype(np.intp)
 
     dim_array: np.ndarray = np.empty((1,))
 
